@@ -11,7 +11,7 @@ CONSTANTS
   MaxBufs = {40960}
   Modes = {"bin"}
   Protos = {4}
-  Secs = {2, 20}
+  Secs = {2}
   MaxChunks = 1
   P1MaxChunks = 1
   MaxFiles = 2
